@@ -65,8 +65,8 @@ CHECKS = {
                 note='bounded: n<=3, |F|<=2, ~150 CTL formulas without constants; genuine defects D7-D10 are recorded, not repaired (reasons in known_findings.json / DESIGN.md section 5); /repo at fix commit 3d1a560',
                 tech=SOLVER),
     'C16': dict(cat='model_checking', ref='4/C16',
-                text='The real unique table (BDDNode/BDDNonTerminalNode/BDDTerminalNode.__new__, find_isomorph, __reset__), apply/compute, __invert__, restrict and the OBDD wrappers run symbolically with the truth-table bits of two functions as unknowns: one merged run covers all ordered pairs (2 variables: all ops; 3 variables: all 65,536 pairs for construction, and for &,|,^ in thorough). z3 proves identical root <=> equal tables, OBDD.__eq__ agrees, and no two live non-terminals share (var, low, high).',
-                note='histories covered: construct two functions bottom-up, then operate, everything alive. Dropping references and garbage collection are NOT decided (CPython runtime); a native build/drop/gc stress run is a cross-check only and is reported as such',
+                text='The real unique table (BDDNode/BDDNonTerminalNode/BDDTerminalNode.__new__, find_isomorph, __reset__), apply/compute, __invert__, restrict and the OBDD wrappers run symbolically with the truth-table bits of two functions as unknowns: one merged run covers all ordered pairs (2 variables: all ops; 3 variables: all 65,536 pairs for construction, and for &,|,^ in thorough). z3 proves identical root <=> equal tables, OBDD.__eq__ agrees, and no two live non-terminals share (var, low, high). Histories of any length with dropping and collection are covered by ONE INDUCTIVE STEP: from an arbitrary pool of <=4 (6 thorough) nodes, each live or collected, satisfying the representation invariant (reduced, unique triples, parent sets = live parents), BDDNonTerminalNode(var, low, high) with arbitrary live arguments returns low / the isomorphic live node / a fresh registered node, touches nothing else, and the invariant holds again (raw circuits, ~30-50 unknowns).',
+                note='garbage collection enters only through the WeakSet contract (a collected node is absent from every parent set): CPython finalisation order and a collection during find_isomorph\'s iteration are not modelled; a native build/drop/gc stress run cross-checks the contract and is reported as such; canonicity of results of operations is decided for <=3 variables only',
                 tech=SOLVER.replace('an independent oracle circuit', 'truth-table oracle circuits')),
     'C17': dict(cat='model_checking', ref='4/C17',
                 text='On the same symbolic runs z3 proves that f&g, f|g, f^g, ~f and f.restrict(v,b) denote the pointwise operation / cofactor on every assignment for every function (pair) of the bound, that every node reachable from a result is reduced and ordered, double negation returns the identical root, and variables() is exactly the support. RuntimeError clauses are examined natively on 6 cases.',
